@@ -16,6 +16,7 @@ import (
 	"os/exec"
 	"path/filepath"
 	"regexp"
+	"runtime"
 	"sort"
 	"strconv"
 	"strings"
@@ -36,6 +37,7 @@ const c17TmpRoot = "/tmp/lhc17/"
 type c17Client struct {
 	flags  string
 	ih, ie []string
+	local  bool // LocalRun (initializationOptions only)
 }
 
 type c17FileTypes struct {
@@ -89,10 +91,11 @@ func c17Ints(s string) []int {
 
 func c17ParseClient(s string) c17Client {
 	p := strings.Split(s, ";")
-	if len(p) != 3 || len(p[0]) != len(c17FlagTags) {
+	local := len(p) == 4 && p[3] == "L"
+	if !(len(p) == 3 || local) || len(p[0]) != len(c17FlagTags) {
 		panic("bad client cfg " + s)
 	}
-	return c17Client{p[0], c17Names(p[1]), c17Names(p[2])}
+	return c17Client{p[0], c17Names(p[1]), c17Names(p[2]), local}
 }
 
 func c17ParseCase(line string) *c17Case {
@@ -132,7 +135,7 @@ func c17ParseCase(line string) *c17Case {
 }
 
 func (c c17Client) initOptions() map[string]interface{} {
-	m := map[string]interface{}{"client": "vsc", "LocalRun": false, "IgnoreFileOrDir": c.ih, "IgnoreFileOrDirError": c.ie}
+	m := map[string]interface{}{"client": "vsc", "LocalRun": c.local, "IgnoreFileOrDir": c.ih, "IgnoreFileOrDirError": c.ie}
 	for k, tag := range c17FlagTags {
 		m[tag] = c.flags[k] == '1'
 	}
@@ -178,7 +181,12 @@ func c17CheckWs(c *c17Case) map[string]string {
 
 // c17LockRoot serialises the users of one workspace directory (fixed roots of corpus / known-finding cases may be
 // used by two checks running at the same time); the lock is released when the process exits
+var c17RandomRoot = regexp.MustCompile(`^/tmp/lhc17/(r|server/meta)[0-9a-f]{12}$`)
+
 func c17LockRoot(root string) *os.File {
+	if c17RandomRoot.MatchString(root) {
+		return nil // generated once per case from 48 random bits: nobody else uses it
+	}
 	dir := c17TmpRoot + "locks"
 	os.MkdirAll(dir, 0755)
 	f, err := os.OpenFile(filepath.Join(dir, hx([]byte(root))), os.O_CREATE|os.O_RDWR, 0644)
@@ -189,8 +197,41 @@ func c17LockRoot(root string) *os.File {
 	return f
 }
 
+// c17Dying: is some goroutine of this process inside a panic / fatal error?  jrpc2 runs its handlers with
+// `defer wg.Done()` / `defer s.nbar.Done()`, so a handler that panics still lets the dispatcher answer (with a null
+// result) while the runtime is on its way to exit(2); the main goroutine could then print an answer and leave with
+// status 0 first.  A panicking goroutine never leaves runtime.gopanic again, and the answers that let the main
+// goroutine get here are only sent after it entered it, so this test is not a race.
+func c17Dying() bool {
+	buf := make([]byte, 4<<20)
+	n := runtime.Stack(buf, true)
+	st := string(buf[:n])
+	for _, mark := range []string{"\npanic(", "runtime.gopanic", "runtime.fatalpanic", "runtime.throw", "runtime.fatalthrow"} {
+		if strings.Contains(st, mark) {
+			return true
+		}
+	}
+	return false
+}
+
+// c17Answer hands the answer of a child to main() unless the process is dying: then it waits for its death, which the
+// parent reports as CRASH <reason>
+func c17Answer(a string) string {
+	if c17Dying() {
+		if os.Getenv("C17_DEBUG") != "" {
+			fmt.Fprintln(os.Stderr, "c17: answer withheld, a goroutine is panicking")
+		}
+		select {}
+	}
+	return a
+}
+
 // runs in the child process
 func c17Child(line string) string {
+	return c17Answer(c17ChildRun(line))
+}
+
+func c17ChildRun(line string) string {
 	c := c17ParseCase(line)
 	ws := c17CheckWs(c)
 	if !strings.HasPrefix(c.root, c17TmpRoot) || strings.Contains(c.root, "..") {
@@ -230,6 +271,10 @@ func c17Child(line string) string {
 }
 
 func c17RawChild(line string) string {
+	return c17Answer(c17RawChildRun(line))
+}
+
+func c17RawChildRun(line string) string {
 	f := strings.Fields(line)
 	if len(f) != 2 {
 		return "BAD-CASE"
@@ -294,15 +339,19 @@ func c17Spawn(leg, line string, cleanup string) string {
 	go func() { done <- cmd.Wait() }()
 	res := ""
 	select {
-	case <-done:
+	case werr := <-done:
 		o := strings.TrimRight(out.String(), "\n")
-		if o != "" && !strings.Contains(o, "\n") {
+		// the exit status decides: while the Go runtime is still printing the panic of a server goroutine, the other
+		// goroutines of the dying child keep running and may even print an answer line
+		if werr == nil && o != "" && !strings.Contains(o, "\n") {
 			res = o
 		} else {
 			e := errb.String()
 			switch {
 			case strings.Contains(e, "regexp: Compile("):
 				res = "CRASH regexp"
+			case strings.Contains(e, "assignment to entry in nil map"):
+				res = "CRASH nil-map"
 			case strings.Contains(e, "stack overflow") || strings.Contains(e, "goroutine stack exceeds"):
 				res = "CRASH stack-overflow"
 			case strings.Contains(e, "concurrent map"):
@@ -327,8 +376,9 @@ func c17Spawn(leg, line string, cleanup string) string {
 	}
 	if cleanup != "" && strings.HasPrefix(cleanup, c17TmpRoot) && (strings.HasPrefix(res, "CRASH") || res == "TIMEOUT") {
 		// the child could not clean up itself
-		if lock := c17LockRoot(cleanup); lock != nil {
-			os.RemoveAll(cleanup)
+		lock := c17LockRoot(cleanup)
+		os.RemoveAll(cleanup)
+		if lock != nil {
 			lock.Close()
 		}
 	}
